@@ -18,7 +18,7 @@ EXPLANATION = (
     "C09.5 no raw syscall site lies on a CFG cycle except dup's documented EBUSY retry, whose back edge must be on the classified error path with errno == EBUSY; "
     "C09.6 wrappers returning a descriptor build it with coerce_from_register. "
     "C09.4 also: no component of a wrapper's success value is simply the caller's own argument handed back. C09.2 also: nothing can end a wrapper between the call and the classification of its result. "
-    "C09.7 a wrapper answers only with what its own system call just returned (no wrapper returns without having made its call: a remembered answer is stale after fork), and a result the kernel classified as success is never turned into an error afterwards. NOT decided: what the kernel returns; behaviour under forced results (fault injection).")
+    "C09.7 a wrapper answers only with what its own system call just returned (no wrapper returns without having made its call: a remembered answer is stale after fork), and a result the kernel classified as success is never turned into an error afterwards. C09.4 also: the success value is not passed through a computing function (min, max, clamp, saturating_*) on its way out. NOT decided: what the kernel returns; behaviour under forced results (fault injection).")
 ASSUMPTIONS = ["reviewed table of infallible / non-returning calls (see rule module)",
                "sc::syscallN returns the raw rax/x0 register value"]
 
